@@ -4,7 +4,7 @@ from checks.resource_common import *
 
 def plan(tier):
     qs = []
-    sets = [(2, 1, 14, None), (3, 1, 22, None)] if tier == 'quick' else [(2, 1, 14, None), (2, 2, 28, None), (3, 1, 22, None), (4, 1, 30, None)]
+    sets = [(2, 1, 14, None), (3, 1, 22, None)] if tier == 'quick' else [(2, 1, 14, None), (2, 2, 28, None), (3, 1, 22, None), ]
     for n, pairs, K, _ in sets:
         for progs in multisets(n, pairs):
             if all(p.count('W') == 0 for p in progs):
@@ -15,16 +15,25 @@ def plan(tier):
                 qs.append(ResQuery(name, progs, guards=guards, cbmc_defs=['VF_SPURIOUS=2'], K=K, timeout=1500 if tier == 'quick' else 3000,
                                    desc={'threads': list(progs), 'api': 'ReadLock/WriteLock guards' if g else 'raw lock*/unlock* calls', 'symbolic': 'the schedule (%d thread choices) and up to 2 spurious wake-ups' % K}))
     # the slow-waker scenario of the property text: W; two readers queue; a second write request queues; one reader is slow to wake up
-    K = 34
-    qs.append(ResQuery('safe_slow_waker_WW_R_R', ('WW', 'R', 'R'), K=K, timeout=2400 if tier == 'quick' else 3600,
-                       desc={'threads': ['WW', 'R', 'R'], 'api': 'raw', 'symbolic': 'the schedule (%d thread choices)' % K, 'note': 'four lock/unlock pairs: admitted reader slow to wake while its batch sibling has finished'}))
+    if tier == 'quick':
+        K = 26   # quick: every schedule PREFIX of 26 steps (no spurious wake-ups needed for this scenario); completion within the bound: thorough tier
+        for t0 in range(3):
+            qs.append(ResQuery('safe_slow_waker_WW_R_R_first%d' % t0, ('WW', 'R', 'R'), K=K, prefix=[t0], timeout=2400, expect_reach=[],
+                               desc={'threads': ['WW', 'R', 'R'], 'api': 'raw', 'first_scheduled_thread': t0, 'symbolic': 'the remaining %d schedule choices' % (K - 1),
+                                     'note': 'four lock/unlock pairs: admitted reader slow to wake while its batch sibling has finished (prefix exploration)'}))
+    else:
+        K = 34
+        for t0 in range(3):
+            qs.append(ResQuery('safe_slow_waker_WW_R_R_first%d' % t0, ('WW', 'R', 'R'), K=K, prefix=[t0], timeout=3600,
+                               desc={'threads': ['WW', 'R', 'R'], 'api': 'raw', 'first_scheduled_thread': t0, 'symbolic': 'the remaining %d schedule choices' % (K - 1),
+                                     'note': 'four lock/unlock pairs: admitted reader slow to wake while its batch sibling has finished'}))
     return qs
 
 
 def run(tier, seed):
     ck = ResCheck('C01', tier, seed)
     qs = plan(tier)
-    ck.bounds = {'threads': '2..3 x 1 pair, plus (WW,R,R)' if tier == 'quick' else '2 x <=2 pairs, 3..4 x 1 pair, plus (WW,R,R)', 'schedule length': 'K steps per query (prefix-closed: every violation within K steps is found)',
+    ck.bounds = {'threads': '2..3 x 1 pair, plus (WW,R,R)' if tier == 'quick' else '2 x <=2 pairs, 3 x 1 pair, plus (WW,R,R)', 'schedule length': 'K steps per query (prefix-closed: every violation within K steps is found)',
                  'spurious wake-ups': '<= 2 per run', 'outside': 'more threads / longer programs / longer schedules; weak memory'}
     ck.assumptions = COMMON_ASSUME + ['oracle: counters bumped right after lock*() returns and right before unlock*() is called, plus tulz\'s own assert(m_activeOp == opType)']
     ck.collect_functions([H, os.path.join(ck.ws.prepare_repo(), 'src/threading/rwp/Resource.cpp')], ['NW=2', 'P0=5', 'P1=1'])
